@@ -853,6 +853,41 @@ example :
     collectMap [([0x00, 0x80], 1), ([0x80], 2), ([0x00, 0x00, 0x80], 3)] = [([0x00, 0x80], 3), ([0x80], 2)] ∧
     decimalEq [0x00, 0x80] 1 [0x80] 1 = false := by decide
 
+/-- **`==` is complete on minimal encodings** (`minimalVarint`: at least one byte, no redundant leading 00 / ff —
+what `BigInt::to_signed_bytes_be` writes; the empty string, which the code reads as 0, is not minimal): two minimal
+encodings of the same integer are the same bytes, hence `==`. -/
+theorem varint_eq_complete_on_minimal (a b : List UInt8)
+    (ha : VarintNorm.minimalVarint a = true) (hb : VarintNorm.minimalVarint b = true)
+    (h : toInt a = toInt b) : varintEq a b = true := by
+  rw [VarintNorm.toInt_inj_minimal a b ha hb h]; simp [varintEq]
+
+/-- On everything written in minimal form, `==` of `CqlVarint` IS integer equality. -/
+theorem varint_eq_iff_on_minimal (a b : List UInt8)
+    (ha : VarintNorm.minimalVarint a = true) (hb : VarintNorm.minimalVarint b = true) :
+    varintEq a b = true ↔ toInt a = toInt b :=
+  ⟨VarintNorm.varintEq_sound a b, varint_eq_complete_on_minimal a b ha hb⟩
+
+/-- The integer determines the minimal encoding (so a minimal encoding is a canonical form). -/
+theorem varint_minimal_unique (a b : List UInt8)
+    (ha : VarintNorm.minimalVarint a = true) (hb : VarintNorm.minimalVarint b = true)
+    (h : toInt a = toInt b) : a = b := VarintNorm.toInt_inj_minimal a b ha hb h
+
+/-- **Hash / Eq contract** (needed by `HashSet<CqlVarint>` / `HashMap<CqlVarint, _>`): values that compare equal
+feed the hasher the same slice — for all byte strings. -/
+theorem varint_hash_respects_eq (a b : List UInt8) (h : varintEq a b = true) : hashInput a = hashInput b := by
+  simpa [varintEq, hashInput] using h
+
+/-- Non-vacuity: minimal encodings of 128, -128, 0, -1, 255; non-minimal ones; the iff on a sign-alias pair and the
+hash slices of a padded pair. -/
+example :
+    VarintNorm.minimalVarint [0x00, 0x80] = true ∧ VarintNorm.minimalVarint [0x80] = true ∧
+    VarintNorm.minimalVarint [0x00] = true ∧ VarintNorm.minimalVarint [0xff] = true ∧
+    VarintNorm.minimalVarint [0x00, 0xff] = true ∧
+    VarintNorm.minimalVarint [0x00, 0x7f] = false ∧ VarintNorm.minimalVarint [0xff, 0x80] = false ∧
+    VarintNorm.minimalVarint [] = false ∧
+    varintEq [0x00, 0x80] [0x80] = false ∧ toInt [0x00, 0x80] ≠ toInt [0x80] ∧
+    varintEq [0x00, 0x00, 0x80] [0x00, 0x80] = true ∧ hashInput [0x00, 0x00, 0x80] = hashInput [0x00, 0x80] := by decide
+
 end VarintNorm
 
 end ScyllaVerif.Props.C01
